@@ -16,15 +16,17 @@ from harness import core, gen_lang, langcheck, lang_props, runner, tlc
 
 TEXTS = {
     'valid': ['hue 5 set all', 'assign x 3 repeat x begin on all end print x', 'time at 8:00 wait print "done"',
-              'if {1 < 2} on all else off all', 'set "L" begin hue 3 stage row 1 end'],
+              'if {1 < 2} on all else off all', 'set "L" begin hue 3 stage row 1 end',
+              # the built-in functions belong to every compile, not only to a compiler's first
+              'print [round 2.5]', 'assign x {[sqrt 16] + [floor 1.5]} hue x'],
     'valid_routine': ['define f with a begin print a end f 3', 'define g begin return 5 end print [g] define h on all h',
-                      'define k with p q begin repeat p begin print q end end k 2 7'],
+                      'define k with p q begin repeat p begin print q end end k 2 7', 'define fl with a begin return [floor a] end print [fl 2.5]'],
     'rej_top': ['hue', 'frobnicate 3', 'set', 'break', 'assign 5 x', 'print {'],
     'rej_loop': ['repeat 3 begin hue 5 bogus end', 'repeat while {1 < 2} begin break break bogus', 'repeat all as x begin set x frob end',
                  'repeat 2 with i from 1 to'],
     'rej_routine': ['define f with a begin hue a bogus end', 'define g begin define h on all end', 'define r with a a2 begin print zz end'],
     'rej_matrix': ['set "L" begin stage row 1 bogus end', 'set "L" begin hue 5 stage row', 'set "L" begin set "M" begin stage end end'],
-    'rej_expr': ['assign x {3 + }', 'hue {(1 + 2}', 'if {1 <} on all', 'assign y {2 * (3 + 4) 5}'],
+    'rej_expr': ['assign x {3 + }', 'hue {(1 + 2}', 'if {1 <} on all', 'assign y {2 * (3 + 4) 5}', 'assign x {[round 2.5] + }'],
 }
 
 
@@ -245,6 +247,10 @@ def run_histories(report, rng):
         for when in ('before', 'after', 'callback'):
             run_with_late_stop(world, job, rec, when)
             execute(world, job, rec, 'run after a stop request that arrived as the previous run finished (%s)' % when)
+        # a stop request that reaches the job while it is not running cancels at most the run that comes next
+        job.request_stop()
+        runner.run_script(world, rec['text'], job=job)
+        execute(world, job, rec, 'run after a run that a stop request made beforehand had cancelled')
         if Instruction.do_listing(job.program) != before:
             problems.append((rec, 'program-changed', 'executing the job changed its compiled program'))
         # another job in the same world afterwards
